@@ -43,6 +43,13 @@ func GenDaemon(prop string, seed uint64, tier string) *DaemonScenario {
 		sc.Prop = "C14"
 		return sc
 	}
+	if prop == "C02" && seed%3 == 2 {
+		// check and repair write into the store below the append-only layer: the chain (or the ring's window)
+		// must still be whole afterwards
+		sc := GenDaemon("C10", seed, tier)
+		sc.Prop = "C02"
+		return sc
+	}
 	if prop == "C01" && seed%4 == 3 {
 		// the store of a follower and of a node repairing its chain is filled by peers alone, some of them lying
 		sc := GenDaemon("C10", seed, tier)
@@ -140,6 +147,11 @@ func GenDaemon(prop string, seed uint64, tier string) *DaemonScenario {
 		sc.N = r.Range(3, 4)
 		sc.T = r.Range(sc.N/2+1, sc.N-1)
 		sc.Backend = "bolt"
+		if r.Bool(20) {
+			// an in-memory ring smaller than the chain: check and repair then work on a window
+			sc.Backend = "memdb"
+			sc.MemSize = r.Range(10, 13) // 10 is the smallest ring the daemon accepts
+		}
 		rounds = r.Range(10, 16)
 		faultEnd = g0 + int64(rounds)*periodMs
 		use["stop"], use["partition"], use["loss"] = false, r.Bool(30), r.Bool(40)
